@@ -130,6 +130,10 @@ def basex_transform(data, sigma=1.0, reg=0.0, correction=True, basis_dir='',
         the transformed (half) image
     """
 
+    if direction not in ('forward', 'inverse'):
+        raise ValueError('Wrong direction "{}", must be "forward" or '
+                         '"inverse"'.format(direction))
+
     # make sure that the data is the right shape (1D must be converted to 2D):
     data = np.atleast_2d(data)
     h, w = data.shape
